@@ -47,7 +47,7 @@ SUITE_CLASSES = {"Cuboid", "Cylinder", "Sphere", "Dipole", "Circle"}
 
 
 def budget(tier):
-    return {"examples": 2500 if tier == "quick" else 100000}
+    return {"examples": 2500 if tier == "quick" else 100000, "fuzz_runs": 0 if tier == "quick" else 20000}
 
 
 @st.composite
